@@ -212,7 +212,9 @@ func checkC18(r *Run) int {
 					c := &space.Case{Label: "C18/" + label, Family: "F5x", Tags: map[string]string{"class": "multiroot", "card": bk.name, "vt": "unmappable", "pos": strings.Join(ch, ">"), "excl": ex}, File: &fc, Cfg: cfg}
 					execs = append(execs, &gExec{Label: label, FD: fd, YAML: cfg.YAML(nil, nil)})
 					metas = append(metas, meta{kind: bk.name, chain: strings.Join(ch, ">") + soleTag, excl: ex, others: oth, ref: refIdx, c: c})
-					if (len(oth) == 1 && (!sole || len(ch) == 1)) || r.Tier == "thorough" {
+					// (thorough compiles every chain for the first set of other roots only: one harness binary
+					// holding every combination exceeds what the linker can address)
+					if (len(oth) == 1 && (!sole || len(ch) == 1)) || (r.Tier == "thorough" && len(oth) == 1) {
 						compile = append(compile, c)
 					}
 				}
